@@ -1,12 +1,14 @@
 package props
 
 import (
+	"bytes"
 	"fmt"
 	"os"
 	"reflect"
 	"strings"
 
 	"verifsim/core"
+	"verifsim/pq"
 )
 
 // C11 - a truncated file is never accepted.
@@ -60,7 +62,11 @@ func (p c11) Run(runseed uint64, tier string, acc *Acc) []*core.Violation {
 	if r.Chance(1, 12) {
 		// embedded-trailer arm: since the reader checks the trailing magic, the only prefixes that get past
 		// the footer check are those that end in a readable trailer of their own
-		if ef := embeddedTrailerFile(r); ef != nil {
+		mk := embeddedTrailerFile
+		if r.Chance(1, 3) {
+			mk = embeddedNearMissFile
+		}
+		if ef := mk(r); ef != nil {
 			f, ok = ef, true
 			acc.Inc("directed/embedded-trailer-file")
 		}
@@ -79,7 +85,7 @@ func (p c11) Run(runseed uint64, tier string, acc *Acc) []*core.Violation {
 		return nil
 	}
 	limit := 2*len(f.Want) + 16
-	full, _ := baselineRead(f.W.Shape, f.Data, "rs", limit)
+	full := c11FullRead(f, limit)
 	if full.Reported() || full.Panic != "" || full.Hang || full.Runaway {
 		acc.Unusable++
 		return nil
@@ -116,7 +122,7 @@ func (p c11) Run(runseed uint64, tier string, acc *Acc) []*core.Violation {
 		if L > 64<<10 && cut < L-4096 && !boundary[cut] && !r.Chance(1, 16) {
 			continue
 		}
-		kind := []string{"rs", "rsb", "rsx"}[(cut+int(runseed%3))%3]
+		kind := []string{"rs", "rsb", "rsx", "rsf"}[(cut+int(runseed%4))%4]
 		cc := cut
 		c := &core.Case{Prop: "C11", Seed: runseed, W: f.W, SourceKind: kind, Cut: &cc}
 		if riskyCut(f.Data, cut) {
@@ -153,7 +159,7 @@ func (p c11) Run(runseed uint64, tier string, acc *Acc) []*core.Violation {
 	}
 	// prefixes that end in the magic get past the footer check: read them in the sandbox
 	if len(riskyCuts) > 0 && len(vios) < 3 {
-		res, err := riskyRead(f.W.Shape, f.Data, riskyCuts, riskyKinds, limit)
+		res, err := riskyRead(f.W.Shape, f.Data, riskyCuts, riskyKinds, limit, fmt.Sprintf("sim-%016x.parquet", f.Digest))
 		if err != nil {
 			acc.Inc("sandbox/child-error")
 			acc.Unusable++
@@ -230,6 +236,7 @@ func (p c11) check(c *core.Case, f *fileWL, limit int) (*core.Violation, *core.R
 	cut := *c.Cut
 	src := core.NewSource(f.Data[:cut:cut], nil, nil)
 	src.MaxCalls = 400000 + 400*len(f.Data)
+	src.FileName = fmt.Sprintf("sim-%016x.parquet", f.Digest) // the crash leaves a shorter file under the same name
 	rr := core.ExecReader(f.W.Shape, src.AsReadSeeker(kindOr(c.SourceKind)), limit, nil)
 	region, _ := f.regionAt(cut)
 	mk := func(sig, detail string) (*core.Violation, *core.ReadResult, int) {
@@ -261,12 +268,12 @@ func (p c11) Check(c *core.Case) (*core.Violation, error) {
 		return nil, fmt.Errorf("cut %d is not a strict prefix of the %d-byte file", *c.Cut, len(f.Data))
 	}
 	limit := 2*len(f.Want) + 16
-	full, _ := baselineRead(f.W.Shape, f.Data, "rs", limit)
+	full := c11FullRead(f, limit)
 	if full.Reported() || full.Panic != "" || full.Hang || full.Runaway {
 		return nil, fmt.Errorf("the complete file is not accepted by the reader")
 	}
 	if riskyCut(f.Data, *c.Cut) {
-		res, err := riskyRead(f.W.Shape, f.Data, []int{*c.Cut}, []string{kindOr(c.SourceKind)}, limit)
+		res, err := riskyRead(f.W.Shape, f.Data, []int{*c.Cut}, []string{kindOr(c.SourceKind)}, limit, fmt.Sprintf("sim-%016x.parquet", f.Digest))
 		if err != nil {
 			return nil, err
 		}
@@ -278,7 +285,7 @@ func (p c11) Check(c *core.Case) (*core.Violation, error) {
 
 func (p c11) Shrink(c *core.Case) []*core.Case {
 	var out []*core.Case
-	if c.SourceKind == "rsb" || c.SourceKind == "rsx" {
+	if c.SourceKind != "" && c.SourceKind != "rs" {
 		n := *c
 		n.SourceKind = "rs"
 		out = append(out, &n)
@@ -287,6 +294,11 @@ func (p c11) Shrink(c *core.Case) []*core.Case {
 	// offset, or proportionally
 	full, err := fileOfCase(c)
 	if err != nil {
+		return out
+	}
+	if riskyCut(full.Data, *c.Cut) {
+		// embedded-trailer cases are constructions with side conditions (what makes the prefix unreadable);
+		// shrinking the history would leave the construction, so only the source kind is simplified
 		return out
 	}
 	fromEnd := len(full.Data) - *c.Cut
@@ -431,6 +443,79 @@ func embeddedTrailerFile(r *core.Rng) *fileWL {
 	return f
 }
 
+// embeddedNearMissFile is the second embedded-trailer construction: the
+// embedded file is small (one row group of one record) and everything it
+// describes IS present at the head of the outer file - except that the page
+// holding the embedded value itself is cut short by the crash. The outer
+// file's first row group has at least two records in a single page per column
+// and the embedded file sits in the FIRST record, so the cut right after it
+// always falls inside that page's body (or, for the copy in the page
+// statistics, inside the page header): the only thing between this prefix and
+// acceptance is that a page body shorter than its header announces is an error.
+func embeddedNearMissFile(r *core.Rng) *fileWL {
+	shape := allShapes[r.Intn(len(allShapes))]
+	sh := core.GetShape(shape)
+	page := r.Range(2, 6)
+	codec := core.Codecs[r.Pick(3, 2, 1)]
+	inner := &core.WriterSpec{Shape: shape, Page: page, Codec: codec}
+	inner.Ops = append(inner.Ops, core.AddOp(core.GenRec(r, sh.Type, core.Benign)), core.WriteOp(), core.CloseOp())
+	iref, ok := refWrite(inner)
+	if !ok {
+		return nil
+	}
+	outer := &core.WriterSpec{Shape: shape, Page: page, Codec: codec}
+	first := core.GenRec(r, sh.Type, core.Benign)
+	first2, done := setFirstString(first, string(iref.Sink.Data), r.Intn(4))
+	if !done {
+		return nil
+	}
+	outer.Ops = append(outer.Ops, core.AddOp(first2))
+	for i, n := 0, r.Range(1, page-1); i < n; i++ {
+		outer.Ops = append(outer.Ops, core.AddOp(core.GenRec(r, sh.Type, core.Benign)))
+	}
+	outer.Ops = append(outer.Ops, core.WriteOp())
+	if r.Chance(1, 2) {
+		outer.Ops = append(outer.Ops, core.AddOp(core.GenRec(r, sh.Type, core.Benign)), core.WriteOp())
+	}
+	outer.Ops = append(outer.Ops, core.CloseOp())
+	ref, ok := refWrite(outer)
+	if !ok {
+		return nil
+	}
+	// the construction is only sound if every copy of the embedded file that lies in a page BODY ends
+	// strictly before the end of that body (a later value follows it in the same page): otherwise the
+	// prefix holds only complete pages and is a readable file that no reader can reject. Checked on the
+	// bytes with the independent parser; a candidate that does not qualify is dropped.
+	data := ref.Sink.Data
+	pf, prob := pq.Parse(data, leavesOf(sh.Type))
+	if prob != nil {
+		return nil
+	}
+	payload := iref.Sink.Data
+	for off := 0; ; {
+		i := bytes.Index(data[off:], payload)
+		if i < 0 {
+			break
+		}
+		end := off + i + len(payload)
+		for _, rg := range pf.RowGroups {
+			for _, ch := range rg.Chunks {
+				for _, pg := range ch.Pages {
+					bodyStart := pg.Off + pg.HeaderLen
+					bodyEnd := bodyStart + int(pg.CompSize)
+					if end > bodyStart && end >= bodyEnd && off+i < bodyEnd {
+						return nil // the copy reaches the end of its page body
+					}
+				}
+			}
+		}
+		off = end
+	}
+	f := &fileWL{W: outer, Ref: ref, Data: data, Want: core.Flatten(ref.Batches), Regions: sinkRegions(ref)}
+	f.Digest = core.HashBytes(append([]byte(outer.HistoryString()), f.Data...))
+	return f
+}
+
 // setFirstString returns a copy of rec in which the (skip+1)-th reachable
 // string (field, pointer target or first slice element) is replaced by s.
 func setFirstString(rec interface{}, s string, skip int) (interface{}, bool) {
@@ -473,4 +558,14 @@ func setFirstString(rec interface{}, s string, skip int) (interface{}, bool) {
 	}
 	targets[skip%len(targets)].SetString(s)
 	return v.Interface(), true
+}
+
+// c11FullRead reads the complete file once through a file-like source of the
+// same name the prefixes will be opened under: the process has then seen the
+// complete file before it sees what a crash left of it.
+func c11FullRead(f *fileWL, limit int) *core.ReadResult {
+	src := core.NewSource(f.Data, nil, nil)
+	src.MaxCalls = 400000 + 400*len(f.Data)
+	src.FileName = fmt.Sprintf("sim-%016x.parquet", f.Digest)
+	return core.ExecReader(f.W.Shape, src.AsReadSeeker("rsf"), limit, nil)
 }
